@@ -45,7 +45,7 @@ func init() {
 const (
 	siMaxK      = 5       // abstract style ids s1..s5 are understood
 	siMaxStack  = 1 << 20 // resolution over <= 5 styles needs a few frames; a runaway recursion hits this quickly
-	siCallLimit = 20 * time.Second
+	siCallLimit = 60 * time.Second
 )
 
 // ---------------------------------------------------------------- value tokens
@@ -1236,8 +1236,15 @@ func runStyleInh(c Case, emit Emitter) {
 				s.kill()
 			} else {
 				s.in.Close()
-				s.cmd.Wait()
+				werr := s.cmd.Wait()
 				s.cmd = nil
+				// only a death announced by the Go runtime itself (fatal error, exit status 2) is an
+				// observation about the library; anything else (killed from outside, protocol error)
+				// is trouble of the machinery
+				ee, _ := werr.(*exec.ExitError)
+				if ee == nil || ee.ExitCode() != 2 || !strings.Contains(s.stderr.String(), "fatal error:") {
+					siFail(fmt.Sprintf("case %d step %d: child ended unexpectedly (%v): %s", c.ID, i, werr, s.lastWords()))
+				}
 			}
 			s.deaths++
 			op := c.Steps[i]
